@@ -19,6 +19,8 @@
 mod c47_scan;
 #[path = "../c47_engine_probe.rs"]
 mod engine_probe;
+#[path = "../c47_real_runtime.rs"]
+mod real_runtime;
 use c47_scan::*;
 use radix_common::crypto::Hash;
 use radix_engine::errors::InvokeError;
@@ -270,6 +272,8 @@ struct HostFn {
     native: NativeFn,
     wasm_params: Vec<&'static str>, // i32 / i64 per native parameter
     has_result: bool,
+    /// the host function returns an i64 (a Buffer: id << 32 | len)
+    returns_i64: bool,
     /// the runtime method receives the vectors read (false for the test-only read function)
     visible: bool,
 }
@@ -295,6 +299,7 @@ fn host_fns(scan: &Scan) -> Vec<HostFn> {
             native: n.clone(),
             wasm_params: n.params.iter().map(|(_, t)| wasm_ty(t)).collect(),
             has_result: c.ret != "()",
+            returns_i64: c.ret == "u64",
             visible: !im.cfg_test,
         });
     }
@@ -357,6 +362,26 @@ fn build_wat(fns: &[HostFn], scan: &Scan, pages: u64) -> String {
             s.push_str(" drop");
         }
         let _ = writeln!(s, "\n    (i64.const 0))\n  (export \"f{}\" (func $f{}))", i, i);
+    }
+    // r{i}: same call, the returned i64 (Buffer) is stored at the address given by an extra parameter
+    for (i, f) in fns.iter().enumerate() {
+        if !f.returns_i64 {
+            continue;
+        }
+        let _ = write!(s, "  (func $r{} ", i);
+        for _ in &f.wasm_params {
+            s.push_str("(param i64) ");
+        }
+        let n = f.wasm_params.len();
+        let _ = write!(s, "(param i64) (result i64)\n    (i64.store (i32.wrap_i64 (local.get {})) (call $h{} ", n, i);
+        for (k, t) in f.wasm_params.iter().enumerate() {
+            if *t == "i32" {
+                let _ = write!(s, "(i32.wrap_i64 (local.get {})) ", k);
+            } else {
+                let _ = write!(s, "(local.get {}) ", k);
+            }
+        }
+        let _ = writeln!(s, "))\n    (i64.const 0))\n  (export \"r{}\" (func $r{}))", i, i);
     }
     s.push_str(")\n");
     s
@@ -709,6 +734,80 @@ fn det_family(fns: &[HostFn], consume_idx: Option<usize>, test_write_idx: Option
         }
     }
     v
+}
+
+
+// ------------------------------------------------------------------------------------------------
+// layer C types: steps on the real ScryptoRuntime
+// ------------------------------------------------------------------------------------------------
+#[derive(Clone, Debug)]
+enum RData {
+    Bytes(Vec<u8>),
+    Pat(u64, u64),
+}
+impl RData {
+    fn bytes(&self) -> Vec<u8> {
+        match self {
+            RData::Bytes(b) => b.clone(),
+            RData::Pat(t, n) => (0..*n).map(|j| dat_byte(*t, j)).collect(),
+        }
+    }
+    fn coq(&self) -> String {
+        match self {
+            RData::Bytes(b) => format!("DBytes {}", coq_bytes(b)),
+            RData::Pat(t, n) => format!("DPat {} {}", t, n),
+        }
+    }
+}
+#[derive(Clone, Debug)]
+enum RStep {
+    /// runtime.allocate_buffer(data) called directly
+    Alloc(RData),
+    /// runtime.buffer_consume(id) called directly
+    Consume(u32),
+    /// hash host function (index into hash_fns) on memory[ptr..ptr+len) through wasmi; the returned i64 is stored at `scratch`
+    Hash(usize, u32, u32, u32),
+    /// the host function buffer_consume(id, dest) through wasmi
+    HostConsume(u32, u32),
+}
+#[derive(Clone, Debug, PartialEq)]
+enum ROut {
+    Alloc(u64, u32, u32), // raw value, Buffer::id(), Buffer::len()
+    Data(Vec<u8>),
+    Ok,
+    TooMany,
+    NotFound(u32),
+    Mae,
+    Other(String),
+    Panic,
+}
+impl ROut {
+    fn short(&self) -> String {
+        match self {
+            ROut::Data(d) => format!("Data(len {}, {:?}..)", d.len(), &d[..d.len().min(8)]),
+            o => format!("{:?}", o),
+        }
+    }
+    fn coq(&self) -> String {
+        match self {
+            ROut::Alloc(raw, id, len) => format!("ROAlloc {} {} {}", raw, id, len),
+            ROut::Data(d) => format!("ROData {}", digest_coq(d)),
+            ROut::Ok => "ROOk".into(),
+            ROut::TooMany => "ROErr TooManyBuffers".into(),
+            ROut::NotFound(id) => format!("ROErr (BufferNotFound {})", id),
+            ROut::Mae => "ROErr MemoryAccessError".into(),
+            ROut::Other(_) => "ROOther".into(),
+            ROut::Panic => "ROPanic".into(),
+        }
+    }
+}
+fn rerr(e: InvokeError<WasmRuntimeError>) -> ROut {
+    match e {
+        InvokeError::SelfError(WasmRuntimeError::TooManyBuffers) => ROut::TooMany,
+        InvokeError::SelfError(WasmRuntimeError::BufferNotFound(id)) => ROut::NotFound(id),
+        InvokeError::SelfError(WasmRuntimeError::MemoryAccessError) => ROut::Mae,
+        other => ROut::Other(format!("{:?}", other).chars().take(120).collect()),
+    }
 }
 
 struct Inst {
@@ -1171,6 +1270,324 @@ fn main() {
         report.floor("engine_consume_live_id", 1);
         report.floor("engine_consume_unknown_id", 10);
         report.floor("engine_consume_ptr_beyond_memory", 5);
+    }
+    // ---- layer C: the REAL ScryptoRuntime (on a real SystemService) — its buffer table driven directly
+    // with arbitrary histories for every ScryptoVmVersion (limit 32 / 32 / 4), and the complete return
+    // path of the hash host functions through wasmi: memory -> runtime -> allocate_buffer -> i64 to WASM
+    // -> buffer_consume -> write_memory
+    {
+        use radix_engine::vm::ScryptoVmVersion;
+        let host = real_runtime::RealRuntimeHost::new();
+        let hash_fns: Vec<(usize, &str)> = fns
+            .iter()
+            .enumerate()
+            .filter_map(|(i, f)| match f.import.as_str() {
+                "crypto_utils_blake2b_256_hash" => Some((i, "blake2b")),
+                "crypto_utils_keccak256_hash" => Some((i, "keccak")),
+                _ => None,
+            })
+            .collect();
+        assert_eq!(hash_fns.len(), 2, "hash host functions not found in the scan");
+        let cidx = consume_idx.expect("buffer_consume host function");
+        let versions = [(ScryptoVmVersion::V1_0, 32u64), (ScryptoVmVersion::V1_1, 32), (ScryptoVmVersion::V1_2, 4)];
+        let m1 = PAGE;
+        let big = |n: u64| RData::Pat(9, n);
+        let mut fam: Vec<(String, usize, Vec<RStep>)> = Vec::new(); // class, version index, steps
+        for (vi, (_, max)) in versions.iter().enumerate() {
+            let max = *max;
+            let allocs = |k: u64| -> Vec<RStep> { (0..k).map(|j| RStep::Alloc(RData::Bytes(vec![j as u8; (j % 5) as usize]))).collect() };
+            let mut t = |name: &str, steps: Vec<RStep>| fam.push((format!("real_{}", name), vi, steps));
+            t("fill_to_max_minus_1", allocs(max - 1));
+            t("fill_to_exactly_max", allocs(max));
+            t("fill_to_max_plus_1_and_plus_2", { let mut v = allocs(max); v.push(RStep::Alloc(RData::Bytes(vec![1]))); v.push(RStep::Alloc(RData::Bytes(vec![]))); v });
+            t("consume_after_too_many_then_alloc", { let mut v = allocs(max); v.extend([RStep::Alloc(RData::Bytes(vec![1])), RStep::Consume(0), RStep::Consume(0), RStep::Alloc(RData::Bytes(vec![7, 7])), RStep::Alloc(RData::Bytes(vec![8])), RStep::Consume(max as u32), RStep::Consume(max as u32 + 1)]); v });
+            t("zero_length_buffer", vec![RStep::Alloc(RData::Bytes(vec![])), RStep::Consume(0), RStep::Consume(0)]);
+            t("zero_length_host_consume_at_size_and_size_plus_1", vec![RStep::Alloc(RData::Bytes(vec![])), RStep::Alloc(RData::Bytes(vec![])), RStep::Alloc(RData::Bytes(vec![])), RStep::HostConsume(0, m1 as u32), RStep::HostConsume(1, m1 as u32 + 1), RStep::HostConsume(2, 0), RStep::Consume(1)]);
+            t("large_buffer", vec![RStep::Alloc(big(5_000)), RStep::Alloc(big(1)), RStep::Consume(0), RStep::Consume(1)]);
+            t("unknown_ids_on_empty_table", vec![RStep::Consume(0), RStep::Consume(1), RStep::Consume(u32::MAX), RStep::HostConsume(0, 16), RStep::HostConsume(u32::MAX, 16)]);
+            t("swap_remove_orders", vec![RStep::Alloc(RData::Bytes(vec![0])), RStep::Alloc(RData::Bytes(vec![1])), RStep::Alloc(RData::Bytes(vec![2])), RStep::Alloc(RData::Bytes(vec![3])), RStep::Consume(0), RStep::Consume(3), RStep::Consume(3), RStep::Consume(1), RStep::Consume(2), RStep::Consume(2)]);
+            t("ids_not_reused", (0..(2 * max + 3)).flat_map(|j| vec![RStep::Alloc(RData::Bytes(vec![j as u8])), RStep::Consume(j as u32)]).chain([RStep::Consume(0), RStep::Consume(max as u32)]).collect());
+            t("host_consume_end_exact_and_plus_1", vec![RStep::Alloc(RData::Pat(3, 300)), RStep::Alloc(RData::Pat(4, 300)), RStep::HostConsume(0, (m1 - 300) as u32), RStep::HostConsume(1, (m1 - 299) as u32), RStep::Consume(1), RStep::Consume(0)]);
+            for (hi, hname) in [(0usize, hash_fns[0].1), (1usize, hash_fns[1].1)] {
+                let mut t = |name: &str, steps: Vec<RStep>| fam.push((format!("real_ret_{}_{}", hname, name), vi, steps));
+                t("table_empty_then_consume", vec![RStep::Hash(hi, 100, 50, 8), RStep::HostConsume(0, 2000), RStep::Consume(0)]);
+                t("table_max_minus_1", { let mut v = allocs(max - 1); v.push(RStep::Hash(hi, 0, 1, 64)); v.push(RStep::Consume(max as u32 - 1)); v });
+                t("table_full_too_many", { let mut v = allocs(max); v.push(RStep::Hash(hi, 0, 1, 64)); v.push(RStep::Consume(max as u32)); v.push(RStep::Consume(0)); v.push(RStep::Hash(hi, 0, 1, 64)); v });
+                t("after_consumed_ids", vec![RStep::Alloc(RData::Bytes(vec![1])), RStep::Consume(0), RStep::Alloc(RData::Bytes(vec![2])), RStep::Consume(1), RStep::Hash(hi, 5, 5, 128), RStep::Consume(2)]);
+                t("source_end_exact_and_plus_1", vec![RStep::Hash(hi, (m1 - 10) as u32, 10, 8), RStep::Hash(hi, (m1 - 10) as u32, 11, 16), RStep::Consume(0), RStep::Consume(1)]);
+                t("source_empty_at_size_and_plus_1", vec![RStep::Hash(hi, m1 as u32, 0, 8), RStep::Hash(hi, m1 as u32 + 1, 0, 16), RStep::Consume(0), RStep::Consume(1)]);
+                t("consume_end_exact", vec![RStep::Hash(hi, 0, 3, 8), RStep::HostConsume(0, (m1 - 32) as u32), RStep::Consume(0)]);
+                t("consume_end_plus_1_buffer_is_gone", vec![RStep::Hash(hi, 0, 3, 8), RStep::HostConsume(0, (m1 - 31) as u32), RStep::Consume(0), RStep::HostConsume(0, 0)]);
+                t("dest_overlaps_source_and_scratch", vec![RStep::Hash(hi, 0, 40, 16), RStep::HostConsume(0, 8), RStep::Hash(hi, 0, 40, 16)]);
+                t("large_source", vec![RStep::Hash(hi, 100, 4000, 8), RStep::Consume(0)]);
+            }
+        }
+        let det_real = fam.len();
+        let nrand = if args.tier == "thorough" { 400 } else { 30 };
+        for k in 0..nrand {
+            let mut rng = root.fork(2_000_000 + k as u64);
+            let vi = rng.usize_below(3);
+            let max = versions[vi].1;
+            let len = rng.range(5, 60) as usize;
+            let mut steps = Vec::new();
+            let mut issued = 0u32;
+            for _ in 0..len {
+                let r = rng.below(100);
+                if r < 40 {
+                    let d = match rng.below(10) {
+                        0 => RData::Bytes(vec![]),
+                        1 => RData::Pat(rng.below(256), rng.range(41, 1500)),
+                        _ => {
+                            let n = rng.below(12) as usize;
+                            RData::Bytes(rng.bytes(n))
+                        }
+                    };
+                    steps.push(RStep::Alloc(d));
+                    issued += 1;
+                } else if r < 65 {
+                    steps.push(RStep::Consume(rng.below(issued as u64 + 2) as u32));
+                } else if r < 80 {
+                    let bd = rng.chance(1, 2);
+                    let (p, l, _) = gen_pair(&mut rng, m1, bd);
+                    // in-range sources are kept short (vm_compute builds the vector read)
+                    let l = if p as u64 + l as u64 <= m1 { l.min(1500) } else { l };
+                    steps.push(RStep::Hash(rng.usize_below(2), p, l, (8 * rng.below(100)) as u32));
+                    issued += 1;
+                } else {
+                    let bd = rng.chance(1, 2);
+                    let (p, _, _) = gen_pair(&mut rng, m1, bd);
+                    steps.push(RStep::HostConsume(rng.below(issued as u64 + 2) as u32, p));
+                }
+                if max == 4 && rng.chance(1, 6) {
+                    // stay near the limit
+                    steps.push(RStep::Alloc(RData::Bytes(vec![9])));
+                    issued += 1;
+                }
+            }
+            fam.push(("real_random_history".to_string(), vi, steps));
+        }
+        let mut idx = 3_000_000usize;
+        let mut hash1 = [0u8; 32];
+        hash1[0] = 1;
+        for (ci, (class, vi, steps)) in fam.iter().enumerate() {
+            let (version, max) = versions[*vi];
+            let seed = (ci as u64 * 29) % 256;
+            let mut mem: Vec<u8> = (0..m1).map(|j| pat_byte(seed, j)).collect();
+            // the implementation
+            let mut inst = engine.instantiate(CodeHash(Hash(hash1)), &codes[&1]);
+            let nofail: Vec<u64> = vec![seed];
+            let (outs, final_mem): (Vec<ROut>, Option<Vec<u8>>) = host.with_runtime(version, |rt| {
+                let r0 = catch(std::panic::AssertUnwindSafe(|| inst.invoke_export("init", nofail.iter().map(|x| Buffer(*x)).collect(), rt)));
+                assert!(matches!(r0, Ok(Ok(_))), "init failed");
+                let mut outs = Vec::new();
+                for st in steps {
+                    let o = match st {
+                        RStep::Alloc(d) => match catch(std::panic::AssertUnwindSafe(|| rt.allocate_buffer(d.bytes()))) {
+                            Err(_) => ROut::Panic,
+                            Ok(Ok(b)) => ROut::Alloc(b.0, b.id(), b.len()),
+                            Ok(Err(e)) => rerr(e),
+                        },
+                        RStep::Consume(id) => match catch(std::panic::AssertUnwindSafe(|| rt.buffer_consume(*id))) {
+                            Err(_) => ROut::Panic,
+                            Ok(Ok(v)) => ROut::Data(v),
+                            Ok(Err(e)) => rerr(e),
+                        },
+                        RStep::Hash(hi, p, l, scratch) => {
+                            let fi = hash_fns[*hi].0;
+                            let a = vec![*p as u64, *l as u64, *scratch as u64];
+                            match catch(std::panic::AssertUnwindSafe(|| inst.invoke_export(&format!("r{}", fi), a.iter().map(|x| Buffer(*x)).collect(), rt))) {
+                                Err(_) => ROut::Panic,
+                                Ok(Ok(_)) => {
+                                    // the i64 the host returned was stored by the module at `scratch`
+                                    match catch(std::panic::AssertUnwindSafe(|| inst.invoke_export("ret", vec![Buffer(((*scratch as u64) << 32) | 8)], rt))) {
+                                        Ok(Ok(b)) if b.len() == 8 => {
+                                            let v = u64::from_le_bytes(b.try_into().unwrap());
+                                            ROut::Alloc(v, (v >> 32) as u32, (v & 0xffff_ffff) as u32)
+                                        }
+                                        _ => ROut::Other("cannot read back the returned value".into()),
+                                    }
+                                }
+                                Ok(Err(e)) => rerr(e),
+                            }
+                        }
+                        RStep::HostConsume(id, dest) => {
+                            let a = vec![*id as u64, *dest as u64];
+                            match catch(std::panic::AssertUnwindSafe(|| inst.invoke_export(&format!("f{}", cidx), a.iter().map(|x| Buffer(*x)).collect(), rt))) {
+                                Err(_) => ROut::Panic,
+                                Ok(Ok(_)) => ROut::Ok,
+                                Ok(Err(e)) => rerr(e),
+                            }
+                        }
+                    };
+                    let stop = o == ROut::Panic;
+                    outs.push(o);
+                    if stop {
+                        break;
+                    }
+                }
+                let fm = match catch(std::panic::AssertUnwindSafe(|| inst.invoke_export("dump", vec![], rt))) {
+                    Ok(Ok(v)) => Some(v),
+                    _ => None,
+                };
+                (outs, fm)
+            });
+            // oracle: the property replayed with a plain map and a plain byte vector
+            let mut live: BTreeMap<u32, Vec<u8>> = BTreeMap::new();
+            let mut next = 0u32;
+            let mut touched: Vec<u64> = Vec::new();
+            let mut fail: Option<String> = None;
+            for (k, (st, o)) in steps.iter().zip(outs.iter()).enumerate() {
+                let want = match st {
+                    RStep::Alloc(d) => {
+                        if live.len() as u64 >= max {
+                            ROut::TooMany
+                        } else {
+                            let b = d.bytes();
+                            let id = next;
+                            next += 1;
+                            let w = ROut::Alloc(((id as u64) << 32) | b.len() as u64, id, b.len() as u32);
+                            live.insert(id, b);
+                            w
+                        }
+                    }
+                    RStep::Consume(id) => match live.remove(id) {
+                        Some(b) => ROut::Data(b),
+                        None => ROut::NotFound(*id),
+                    },
+                    RStep::Hash(hi, p, l, scratch) => {
+                        if *p as u64 + *l as u64 > m1 {
+                            ROut::Mae
+                        } else if live.len() as u64 >= max {
+                            ROut::TooMany
+                        } else {
+                            let src = &mem[*p as usize..*p as usize + *l as usize];
+                            let h: Vec<u8> = if hash_fns[*hi].1 == "blake2b" { radix_common::crypto::blake2b_256_hash(src).to_vec() } else { radix_common::crypto::keccak256_hash(src).to_vec() };
+                            let id = next;
+                            next += 1;
+                            let v = ((id as u64) << 32) | h.len() as u64;
+                            live.insert(id, h);
+                            mem[*scratch as usize..*scratch as usize + 8].copy_from_slice(&v.to_le_bytes());
+                            touched.extend(*scratch as u64..*scratch as u64 + 8);
+                            ROut::Alloc(v, id, 32)
+                        }
+                    }
+                    RStep::HostConsume(id, dest) => match live.remove(id) {
+                        None => ROut::NotFound(*id),
+                        Some(b) => {
+                            if *dest as u64 + b.len() as u64 > m1 {
+                                ROut::Mae
+                            } else {
+                                mem[*dest as usize..*dest as usize + b.len()].copy_from_slice(&b);
+                                touched.extend([*dest as u64, *dest as u64 + b.len() as u64]);
+                                ROut::Ok
+                            }
+                        }
+                    },
+                };
+                if *o != want && fail.is_none() {
+                    fail = Some(format!("step {} ({:?}): observed {}, the property demands {}", k, st, o.short(), want.short()));
+                }
+            }
+            if fail.is_none() && final_mem.as_deref() != Some(&mem[..]) {
+                let first = final_mem.as_ref().and_then(|fm| fm.iter().zip(mem.iter()).position(|(a, b)| a != b));
+                fail = Some(format!("memory after the script differs from the expected memory (first difference at {:?})", first));
+            }
+            if let Some(w) = fail {
+                report.oracle_failure(idx, "", &format!("real ScryptoRuntime, {} (limit {}): {}", class, max, w), json!({"class": class, "max": max, "steps": format!("{:?}", steps).chars().take(600).collect::<String>()}));
+            }
+            let det_class = format!("det_{}", class);
+            if ci < det_real {
+                report.count(&det_class);
+            } else {
+                report.count("real_random_history");
+            }
+            for o in &outs {
+                report.count(match o {
+                    ROut::Alloc(..) => "real_out_alloc",
+                    ROut::Data(_) => "real_out_data",
+                    ROut::Ok => "real_out_host_consume_ok",
+                    ROut::TooMany => "real_out_too_many_buffers",
+                    ROut::NotFound(_) => "real_out_buffer_not_found",
+                    ROut::Mae => "real_out_memory_access_error",
+                    _ => "real_out_other",
+                });
+            }
+            // Coq case
+            let fm = final_mem.unwrap_or_else(|| mem.clone());
+            let mut idxs: Vec<u64> = vec![0, 1, m1 - 2, m1 - 1];
+            for t in &touched {
+                for d in 0..3u64 {
+                    idxs.push(t + d);
+                    idxs.push(t.saturating_sub(d));
+                }
+            }
+            idxs.retain(|x| *x < m1);
+            idxs.sort();
+            idxs.dedup();
+            let window = coq_list(idxs.iter().map(|x| format!("({}, {})", x, fm[*x as usize])));
+            // hash results for the model: replay once more to collect them in step order
+            let mut results: Vec<String> = Vec::new();
+            {
+                let mut mem2: Vec<u8> = (0..m1).map(|j| pat_byte(seed, j)).collect();
+                let mut live2: BTreeMap<u32, Vec<u8>> = BTreeMap::new();
+                let mut next2 = 0u32;
+                for st in steps.iter().take(outs.len()) {
+                    match st {
+                        RStep::Alloc(d) => {
+                            if (live2.len() as u64) < max {
+                                live2.insert(next2, d.bytes());
+                                next2 += 1;
+                            }
+                            results.push(format!("RAlloc ({})", d.coq()));
+                        }
+                        RStep::Consume(id) => {
+                            live2.remove(id);
+                            results.push(format!("RConsume {}", id));
+                        }
+                        RStep::Hash(hi, p, l, scratch) => {
+                            let inr = *p as u64 + *l as u64 <= m1;
+                            let h: Vec<u8> = if inr {
+                                let src = &mem2[*p as usize..*p as usize + *l as usize];
+                                if hash_fns[*hi].1 == "blake2b" { radix_common::crypto::blake2b_256_hash(src).to_vec() } else { radix_common::crypto::keccak256_hash(src).to_vec() }
+                            } else {
+                                vec![]
+                            };
+                            if inr && (live2.len() as u64) < max {
+                                let v = ((next2 as u64) << 32) | 32;
+                                live2.insert(next2, h.clone());
+                                next2 += 1;
+                                mem2[*scratch as usize..*scratch as usize + 8].copy_from_slice(&v.to_le_bytes());
+                            }
+                            results.push(format!("RHash {} {} {} {}", p, l, scratch, coq_bytes(&h)));
+                        }
+                        RStep::HostConsume(id, dest) => {
+                            if let Some(b) = live2.remove(id) {
+                                if *dest as u64 + b.len() as u64 <= m1 {
+                                    mem2[*dest as usize..*dest as usize + b.len()].copy_from_slice(&b);
+                                }
+                            }
+                            results.push(format!("RHostConsume {} {}", id, dest));
+                        }
+                    }
+                }
+            }
+            let outs_coq = coq_list(outs.iter().map(|o| o.coq()));
+            cw.push(format!("(CReal {} 1 {} {} {}, ({}, 0, {}))", max, seed, coq_list(results.into_iter()), outs_coq, fm.len(), window));
+            report.case(&format!("real|{}|{}|{}", class, vi, ci), true);
+            idx += 1;
+        }
+        let mut per_class: BTreeMap<String, u64> = BTreeMap::new();
+        for (class, _, _) in fam.iter().take(det_real) {
+            *per_class.entry(format!("det_{}", class)).or_insert(0) += 1;
+        }
+        for (c, n) in &per_class {
+            report.floor(c, *n);
+        }
+        report.floor("real_random_history", nrand as u64);
+        report.floor("real_out_too_many_buffers", 10);
+        report.floor("real_out_buffer_not_found", 10);
+        report.floor("real_out_memory_access_error", 6);
+        report.extra.insert("real_runtime_cases".into(), json!({"deterministic": det_real, "random": nrand}));
     }
     let n = args.cases as u64;
     report.floor("read_ok", n / 20);
